@@ -391,3 +391,572 @@ Proof.
   - exists b; repeat split; auto.
   - apply discard_loop_spec; auto; lia.
 Qed.
+
+Lemma unread_cr_spec frag b frag' b' :
+  unread_cr frag b = (frag', b') ->
+  (pot b' <= pot b + 1)%nat /\ b_err b' = b_err b /\ c_term (b_c b') = c_term (b_c b).
+Proof.
+  unfold unread_cr. destruct (rev frag) as [|y r].
+  - intros H; inversion H; subst; repeat split; lia.
+  - destruct (y =? 13)%N; intros H; inversion H; subst; unfold pot; cbn [b_buf b_c b_err length];
+      repeat split; lia.
+Qed.
+
+Lemma text_line_spec fuel acc b :
+  b_err b <> EBufFull -> (pot b + 3 <= fuel)%nat ->
+  exists line e b', text_line fuel acc b = RsOk line e b' /\
+    (pot b' <= pot b)%nat /\ (e = ENone -> (pot b' < pot b)%nat) /\ e <> EBufFull /\
+    b_err b' <> EBufFull /\ c_term (b_c b') = c_term (b_c b).
+Proof.
+  revert acc b; induction fuel as [|f IH]; intros acc b Hnf Hp; [lia|].
+  cbn [text_line].
+  destruct (read_slice_spec (S f) 10 b Hnf) as (line & e & b1 & H & P1 & P2 & P3 & P4 & P5).
+  { pose proof (need_le_pot b); lia. }
+  rewrite H.
+  assert (line <> [] -> (pot b1 < pot b)%nat) as Hstrict.
+  { destruct line; [congruence|cbn [length] in P1; lia]. }
+  destruct e.
+  - destruct line as [|x l]; [exfalso; apply P2; auto|].
+    eexists _, _, _; split; [reflexivity|]. split; [lia|]. split; [intros _; apply Hstrict; congruence|].
+    split; [congruence|]. split; assumption.
+  - destruct line as [|x l].
+    + eexists _, _, _; split; [reflexivity|]. split; [lia|]. split; [congruence|]. split; [congruence|]. split; assumption.
+    + eexists _, _, _; split; [reflexivity|]. split; [lia|]. split; [intros _; apply Hstrict; congruence|].
+      split; [congruence|]. split; assumption.
+  - destruct line as [|x l].
+    + eexists _, _, _; split; [reflexivity|]. split; [lia|]. split; [congruence|]. split; [congruence|]. split; assumption.
+    + eexists _, _, _; split; [reflexivity|]. split; [lia|]. split; [intros _; apply Hstrict; congruence|].
+      split; [congruence|]. split; assumption.
+  - destruct line as [|x l].
+    + eexists _, _, _; split; [reflexivity|]. split; [lia|]. split; [congruence|]. split; [congruence|]. split; assumption.
+    + eexists _, _, _; split; [reflexivity|]. split; [lia|]. split; [intros _; apply Hstrict; congruence|].
+      split; [congruence|]. split; assumption.
+  - destruct (P3 eq_refl) as [Q1 Q2]. pose proof BUFSZ_pos.
+    destruct (unread_cr line b1) as [frag' b''] eqn:Eu.
+    destruct (unread_cr_spec _ _ _ _ Eu) as (U1 & U2 & U3).
+    destruct (IH (Some (oapp acc frag')) b'') as (l2 & e2 & b2 & H2 & R1 & R2 & R3 & R4 & R5);
+      [congruence|lia|].
+    exists l2, e2, b2; split; [exact H2|].
+    split; [lia|]. split; [intros He; specialize (R2 He); lia|]. split; [exact R3|]. split; [exact R4|]. congruence.
+Qed.
+
+(* ------------------------------------------------------------------ *)
+(* handlers over bufio: they finish on EVERY kind of connection end, the drained datagram
+   wrapper included (fill's 100-empty-reads cut-off turns (0, nil) into ErrNoProgress) *)
+
+Lemma dummy_loop_returns fuel b :
+  b_err b <> EBufFull -> (pot b + 3 <= fuel)%nat -> fst (dummy_loop fuel b) = Returned.
+Proof.
+  revert b; induction fuel as [|f IH]; intros b Hnf Hp; [lia|]. cbn [dummy_loop].
+  destruct (read_bytes_spec (S f) 10 [] b Hnf Hp) as (line & e & b1 & H & P1 & P2 & P3 & P4 & P5).
+  rewrite H. destruct e; try reflexivity; try congruence.
+  apply IH; [rewrite bwrite_err; exact P4|]. rewrite bwrite_pot. specialize (P2 eq_refl); lia.
+Qed.
+
+Lemma pot_new_reader c : pot (new_reader c) = weight c.
+Proof. reflexivity. Qed.
+Lemma new_reader_err c : b_err (new_reader c) <> EBufFull.
+Proof. cbn; congruence. Qed.
+
+Lemma handle_dummy_returns fuel c :
+  (weight c + 3 <= fuel)%nat -> h_out (handle_dummy fuel c) = Returned.
+Proof.
+  intros Hf; unfold handle_dummy.
+  pose proof (dummy_loop_returns fuel (new_reader c)) as H.
+  destruct (dummy_loop fuel (new_reader c)) as [o b]; cbn [fst h_out] in *.
+  apply H; [cbn; congruence|rewrite pot_new_reader; lia].
+Qed.
+
+Lemma handle_tftp_returns fuel c :
+  (weight c + 3 <= fuel)%nat -> h_out (handle_tftp fuel c) = Returned.
+Proof.
+  intros Hf; unfold handle_tftp.
+  destruct (bread (new_reader c) 2) as [[pt e] b1] eqn:E1.
+  destruct (bread_spec _ _ _ _ _ (new_reader_err c) E1) as (A1 & A2 & A3).
+  rewrite pot_new_reader in A1.
+  assert (forall k, h_out
+     match read_bytes fuel 0 [] b1 with
+     | RsOk _ ENone b2 =>
+         match read_bytes fuel 0 [] b2 with
+         | RsOk _ ENone b3 => mkH Returned (cwrite (b_c b3) k) res0
+         | RsOk _ _ b3 => mkH Returned (b_c b3) res0
+         | RsFuel => mkH OutOfFuel (b_c b2) res0
+         end
+     | RsOk _ _ b2 => mkH Returned (b_c b2) res0
+     | RsFuel => mkH OutOfFuel (b_c b1) res0
+     end = Returned) as Htwo.
+  { intros k.
+    destruct (read_bytes_spec fuel 0 [] b1 A2) as (l1 & e1 & b2 & H1 & P1 & P2 & P3 & P4 & P5); [lia|].
+    rewrite H1. destruct e1; try reflexivity.
+    destruct (read_bytes_spec fuel 0 [] b2 P4) as (l2 & e2 & b3 & H2 & Q1 & Q2 & Q3 & Q4 & Q5); [lia|].
+    rewrite H2. destruct e2; reflexivity. }
+  destruct e; try reflexivity.
+  destruct (nth 1 pt 0 =? 1)%N; [apply Htwo|].
+  destruct (nth 1 pt 0 =? 2)%N; [apply Htwo|].
+  destruct (nth 1 pt 0 =? 3)%N; [|reflexivity].
+  destruct (bread b1 2) as [[? e2] b2]. destruct e2; try reflexivity.
+  destruct (bread b2 512) as [[? e3] b3]. destruct e3; reflexivity.
+Qed.
+
+Lemma mc_loop_returns fuel udp tokens b :
+  b_err b <> EBufFull -> (pot b + 3 <= fuel)%nat -> fst (mc_loop fuel udp tokens b) = Returned.
+Proof.
+  revert tokens b; induction fuel as [|f IH]; intros tokens b Hnf Hp; [lia|]. cbn [mc_loop].
+  destruct (read_bytes_spec (S f) 10 [] b Hnf Hp) as (line & e & b1 & H & P1 & P2 & P3 & P4 & P5).
+  rewrite H. destruct e; try reflexivity; try congruence.
+  specialize (P2 eq_refl).
+  assert (forall k t, fst (mc_loop f udp t (bwrite b1 k)) = Returned) as Hgo.
+  { intros k t; apply IH; [rewrite bwrite_err; exact P4|rewrite bwrite_pot; lia]. }
+  set (cmd := if (2 <=? length line)%nat then firstn (length line - 2) line else line).
+  assert (fst
+    (let tokens' := if udp then Nat.pred tokens else tokens in
+     let parts := split_on 32 [] cmd in
+     let w := hd [] parts in
+     if eqb_bytes w [102; 108; 117; 115; 104; 95; 97; 108; 108]%N
+     then mc_loop f udp tokens' (bwrite b1 6)
+     else if eqb_bytes w [115; 116; 97; 116; 115]%N
+       then mc_loop f udp tokens' (bwrite b1 MC_STATS_LEN)
+       else if is_store w
+         then if (length parts <? 5)%nat
+           then (Returned, b1)
+           else match atoi (nth 4 parts []) with
+                | Some v =>
+                    let '(d, e, b2) := bread b1 80 in
+                    match e with
+                    | ENone =>
+                        match discard (S f) (v - Z.of_nat (length d)) b2 with
+                        | Some b3 => mc_loop f udp tokens' (bwrite b3 8)
+                        | None => (OutOfFuel, b2)
+                        end
+                    | _ => (Returned, b2)
+                    end
+                | None => (Returned, b1)
+                end
+         else mc_loop f udp tokens' (bwrite b1 7)) = Returned) as Hbody.
+  { cbv zeta.
+    destruct (eqb_bytes _ _); [apply Hgo|].
+    destruct (eqb_bytes _ _); [apply Hgo|].
+    destruct (is_store _); [|apply Hgo].
+    destruct (_ <? 5)%nat; [reflexivity|].
+    destruct (atoi _) as [v|]; [|reflexivity].
+    destruct (bread b1 80) as [[d e] b2] eqn:Eb.
+    destruct (bread_spec _ _ _ _ _ P4 Eb) as (B1 & B2 & B3).
+    destruct e; try reflexivity.
+    destruct (discard_spec (S f) (v - Z.of_nat (length d)) b2 B2) as (b3 & Hd & D1 & D2 & D3); [lia|].
+    rewrite Hd. apply IH; [rewrite bwrite_err; exact D2|rewrite bwrite_pot; lia]. }
+  destruct udp; [destruct tokens; [reflexivity|]|]; exact Hbody.
+Qed.
+
+Lemma handle_memcached_returns udp fuel c :
+  (weight c + 3 <= fuel)%nat -> h_out (handle_memcached udp fuel c) = Returned.
+Proof.
+  intros Hf; unfold handle_memcached.
+  set (b1 := if udp then let '(_, _, b') := bread (new_reader c) 8 in b' else new_reader c).
+  assert (b_err b1 <> EBufFull /\ (pot b1 <= weight c)%nat) as [A1 A2].
+  { subst b1; destruct udp.
+    - destruct (bread (new_reader c) 8) as [[d e] b'] eqn:E.
+      destruct (bread_spec _ _ _ _ _ (new_reader_err c) E) as (B1 & B2 & B3).
+      rewrite pot_new_reader in B1; auto.
+    - split; [cbn; congruence|rewrite pot_new_reader; lia]. }
+  pose proof (mc_loop_returns fuel udp 4 b1 A1 ltac:(lia)) as H.
+  destruct (mc_loop fuel udp 4 b1) as [o b2]; cbn [fst h_out] in *; exact H.
+Qed.
+
+(* ftp: the control loop always ends - by returning, by a recovered panic, or by blocking
+   for ever in a data command; it never spins *)
+Lemma ftp_loop_ends fuel v6 dial s b :
+  b_err b <> EBufFull -> (pot b + 3 <= fuel)%nat ->
+  fst (fst (ftp_loop fuel v6 dial s b)) <> OutOfFuel.
+Proof.
+  revert s b; induction fuel as [|f IH]; intros s b Hnf Hp; [lia|]. cbn [ftp_loop].
+  destruct (read_bytes_spec (S f) 10 [] b Hnf Hp) as (line & e & b1 & H & P1 & P2 & P3 & P4 & P5).
+  rewrite H. destruct e; cbn [fst]; try congruence.
+  specialize (P2 eq_refl).
+  destruct (ftp_cmd v6 dial s line) as [st k].
+  destruct st; cbn [fst]; try congruence.
+  apply IH; [rewrite nwrites_err; exact P4|rewrite nwrites_pot; lia].
+Qed.
+
+Lemma handle_ftp_ends v6 dial fuel c :
+  (weight c + 3 <= fuel)%nat -> h_out (handle_ftp v6 dial fuel c) <> OutOfFuel.
+Proof.
+  intros Hf; unfold handle_ftp, handle_ftp_st.
+  pose proof (ftp_loop_ends fuel v6 dial ftp_init (bwrite (new_reader c) 0)) as H.
+  destruct (ftp_loop fuel v6 dial ftp_init (bwrite (new_reader c) 0)) as [[o s] b]; cbn [fst h_out] in *.
+  apply H; [cbn; congruence|rewrite bwrite_pot, pot_new_reader; lia].
+Qed.
+
+Lemma smtp_loop_ends fuel st i b :
+  b_err b <> EBufFull -> (pot b + 3 <= fuel)%nat ->
+  fst (smtp_loop fuel st i b) = Returned \/ fst (smtp_loop fuel st i b) = Unmodelled.
+Proof.
+  revert st i b; induction fuel as [|f IH]; intros st i b Hnf Hp; [lia|]. cbn [smtp_loop].
+  destruct (text_line_spec (S f) None b Hnf Hp) as (line & e & b1 & H & P1 & P2 & P3 & P4 & P5).
+  rewrite H. destruct e; cbn [fst]; auto; try congruence.
+  specialize (P2 eq_refl).
+  assert (forall st' i' k, fst (smtp_loop f st' i' (nwrites k b1)) = Returned \/
+                           fst (smtp_loop f st' i' (nwrites k b1)) = Unmodelled) as Hgo.
+  { intros; apply IH; [rewrite nwrites_err; exact P4|rewrite nwrites_pot; lia]. }
+  pose proof (fun st' i' => Hgo st' i' O) as Hgo0.
+  pose proof (fun st' i' => Hgo st' i' 1%nat) as Hgo1.
+  cbn [nwrites] in Hgo0, Hgo1.
+  destruct st;
+    repeat match goal with
+           | |- context [if ?x then _ else _] => destruct x
+           end;
+    cbn [fst]; auto.
+Qed.
+
+Lemma handle_smtp_ends fuel c :
+  (weight c + 3 <= fuel)%nat ->
+  h_out (handle_smtp fuel c) = Returned \/ h_out (handle_smtp fuel c) = Unmodelled.
+Proof.
+  intros Hf; unfold handle_smtp.
+  pose proof (smtp_loop_ends fuel SHello 0 (bwrite (new_reader c) 0)) as H.
+  destruct (smtp_loop fuel SHello 0 (bwrite (new_reader c) 0)) as [o b]; cbn [fst h_out] in *.
+  apply H; [cbn; congruence|rewrite bwrite_pot, pot_new_reader; lia].
+Qed.
+
+(* ------------------------------------------------------------------ *)
+(* adb: reads the connection directly *)
+
+Lemma adb_loop_ends fuel b4 cb c :
+  c_term c <> TZero -> (weight c < fuel)%nat -> finished (fst (adb_loop fuel b4 cb c)) = true.
+Proof.
+  revert b4 cb c; induction fuel as [|f IH]; intros b4 cb c Ht Hw; [lia|]. cbn [adb_loop].
+  destruct (cread c ADBSZ) as [[d e] c1] eqn:E.
+  pose proof (cread_term _ _ _ _ _ E) as Ht1.
+  destruct (c_segs c) eqn:Es.
+  - destruct (cread_drained _ _ _ _ _ Es E) as (-> & _ & ->).
+    destruct (c_term c); cbn [fst finished]; congruence.
+  - assert (e = ENone) as -> by (eapply cread_pending; eauto; congruence).
+    assert (weight c1 < weight c)%nat
+      by (apply (cread_progress c ADBSZ d ENone c1); [pose proof ADBSZ_pos; lia|congruence|exact E]).
+    repeat match goal with
+           | |- context [if ?x then _ else _] => destruct x
+           end; cbn [fst finished]; try reflexivity;
+      apply IH; rewrite ?cwrite_term, ?cwrite_weight; try congruence; lia.
+Qed.
+
+Lemma handle_adb_ends fuel c :
+  c_term c <> TZero -> (weight c < fuel)%nat -> finished (h_out (handle_adb fuel c)) = true.
+Proof.
+  intros Ht Hw; unfold handle_adb.
+  destruct (cread c ADBSZ) as [[d e] c1] eqn:E.
+  pose proof (cread_term _ _ _ _ _ E) as Ht1. pose proof (cread_weight _ _ _ _ _ E) as Hw1.
+  assert (e <> ENoProgress /\ e <> EBufFull) as [K1 K2] by (destruct (cread_err_kind _ _ _ _ _ E); auto).
+  destruct e; cbn [h_out finished]; try reflexivity; try congruence.
+  destruct (eqb_bytes _ _); cbn [h_out finished]; try reflexivity.
+  destruct (_ <? 24)%nat; cbn [h_out finished]; try reflexivity.
+  pose proof (adb_loop_ends fuel (upd4 [0; 0; 0; 0]%N d) [] (cwrite c1 113)) as H.
+  destruct (adb_loop fuel (upd4 [0; 0; 0; 0]%N d) [] (cwrite c1 113)) as [o c2]; cbn [fst h_out] in *.
+  apply H; rewrite ?cwrite_term, ?cwrite_weight; try congruence; lia.
+Qed.
+
+Lemma adb_cmd_facts :
+  upd4 s_CNXN [] = s_CNXN /\ eqb_bytes s_CNXN s_OPEN = false /\ eqb_bytes s_CNXN s_WRTE = false /\
+  eqb_bytes s_CNXN s_OKAY = false /\ eqb_bytes s_CNXN s_CLSE = false.
+Proof. repeat split; reflexivity. Qed.
+
+(* once the datagram is consumed and "CNXN" is what is left in the buffer, every round of
+   the loop is one empty read and one 24-byte reply, for ever *)
+Lemma adb_loop_drained_zero fuel cb c :
+  c_segs c = [] -> c_term c = TZero ->
+  fst (adb_loop fuel s_CNXN cb c) = OutOfFuel /\
+  m_writes (c_m (snd (adb_loop fuel s_CNXN cb c))) = (m_writes (c_m c) + N.of_nat fuel)%N.
+Proof.
+  destruct adb_cmd_facts as (F0 & F1 & F2 & F3 & F4).
+  revert c; induction fuel as [|f IH]; intros c Hs Ht; cbn [adb_loop].
+  - split; [reflexivity|cbn; lia].
+  - unfold cread; rewrite Hs, Ht. rewrite F0, F1, F2, F3, F4.
+    match goal with |- context [adb_loop f s_CNXN cb ?c'] => destruct (IH c' eq_refl eq_refl) as [I1 I2] end.
+    split; [exact I1|]. rewrite I2. cbn [cwrite c_m m_writes tick_read]. lia.
+Qed.
+
+Lemma starts_with_firstn p l : starts_with p l = true -> firstn (length p) l = p.
+Proof.
+  revert l; induction p as [|x p IH]; intros l; [reflexivity|].
+  destruct l as [|y l]; cbn [starts_with length firstn]; [congruence|].
+  intros H; apply andb_true_iff in H; destruct H as [H1 H2].
+  apply N.eqb_eq in H1; subst; f_equal; auto.
+Qed.
+
+Lemma handle_adb_datagram_flood fuel d m :
+  starts_with s_CNXN d = true -> (24 <= length d)%nat -> (length d <= ADBSZ)%nat ->
+  h_out (handle_adb fuel (mkConn [d] TZero m)) = OutOfFuel /\
+  (N.of_nat fuel <= m_writes (c_m (h_conn (handle_adb fuel (mkConn [d] TZero m)))))%N.
+Proof.
+  intros Hp Hl Hsz; unfold handle_adb, cread; cbn [c_segs c_term c_m].
+  rewrite (firstn_all2 d Hsz), (skipn_all2 d Hsz).
+  assert (upd4 [0; 0; 0; 0]%N d = s_CNXN) as ->.
+  { unfold upd4. rewrite firstn_app.
+    replace (4 - length d)%nat with O by lia. cbn [firstn]. rewrite app_nil_r.
+    apply (starts_with_firstn s_CNXN d Hp). }
+  replace (eqb_bytes s_CNXN s_CNXN) with true by reflexivity.
+  replace (length d <? 24)%nat with false by (symmetry; apply Nat.ltb_ge; lia).
+  match goal with |- context [adb_loop fuel s_CNXN [] ?c'] =>
+    destruct (adb_loop_drained_zero fuel [] c' eq_refl eq_refl) as [I1 I2];
+    destruct (adb_loop fuel s_CNXN [] c') as [o c2] end.
+  cbn [fst snd h_out h_conn] in *. split; [exact I1|]. rewrite I2. lia.
+Qed.
+
+(* ------------------------------------------------------------------ *)
+(* resources *)
+
+Definition clean_svc (s : svc) : bool := match s with Ftp | Smtp => false | _ => true end.
+
+Ltac crush_res :=
+  repeat match goal with
+         | |- context [let '(_, _) := ?x in _] => destruct x
+         | |- context [match ?x with _ => _ end] => destruct x
+         end; reflexivity.
+
+Lemma handle_ntp_res fuel c : h_res (handle_ntp fuel c) = res0.
+Proof. unfold handle_ntp; destruct (io_copy fuel false c); reflexivity. Qed.
+Lemma handle_echo_res fuel c : h_res (handle_echo fuel c) = res0.
+Proof. unfold handle_echo; destruct (io_copy fuel true c); reflexivity. Qed.
+Lemma handle_dummy_res fuel c : h_res (handle_dummy fuel c) = res0.
+Proof. unfold handle_dummy; destruct (dummy_loop fuel (new_reader c)); reflexivity. Qed.
+Lemma handle_adb_res fuel c : h_res (handle_adb fuel c) = res0.
+Proof.
+  unfold handle_adb. destruct (cread c ADBSZ) as [[d e] c1].
+  destruct e; try reflexivity. destruct (eqb_bytes _ _); try reflexivity.
+  destruct (_ <? 24)%nat; try reflexivity. destruct (adb_loop _ _ _ _); reflexivity.
+Qed.
+Lemma handle_memcached_res udp fuel c : h_res (handle_memcached udp fuel c) = res0.
+Proof. unfold handle_memcached. destruct (mc_loop _ _ _ _); reflexivity. Qed.
+Lemma handle_tftp_res fuel c : h_res (handle_tftp fuel c) = res0.
+Proof.
+  unfold handle_tftp. destruct (bread (new_reader c) 2) as [[pt e] b1].
+  destruct e; try reflexivity.
+  assert (forall k, h_res
+     match read_bytes fuel 0 [] b1 with
+     | RsOk _ ENone b2 =>
+         match read_bytes fuel 0 [] b2 with
+         | RsOk _ ENone b3 => mkH Returned (cwrite (b_c b3) k) res0
+         | RsOk _ _ b3 => mkH Returned (b_c b3) res0
+         | RsFuel => mkH OutOfFuel (b_c b2) res0
+         end
+     | RsOk _ _ b2 => mkH Returned (b_c b2) res0
+     | RsFuel => mkH OutOfFuel (b_c b1) res0
+     end = res0) as Htwo.
+  { intros k. destruct (read_bytes fuel 0 [] b1) as [? e1 b2|]; [|reflexivity].
+    destruct e1; try reflexivity.
+    destruct (read_bytes fuel 0 [] b2) as [? e2 b3|]; [|reflexivity]. destruct e2; reflexivity. }
+  destruct (_ =? 1)%N; [apply Htwo|]. destruct (_ =? 2)%N; [apply Htwo|].
+  destruct (_ =? 3)%N; [|reflexivity].
+  destruct (bread b1 2) as [[? e2] b2]. destruct e2; try reflexivity.
+  destruct (bread b2 512) as [[? e3] b3]. destruct e3; reflexivity.
+Qed.
+
+Lemma handle_clean_res s fuel c : clean_svc (sc_svc s) = true -> h_res (handle s fuel c) = res0.
+Proof.
+  destruct s as [sv udp v6 dial]; unfold handle; cbn [sc_svc sc_udp sc_v6 sc_dial].
+  destruct sv; cbn [clean_svc]; try congruence; intros _.
+  - apply handle_ntp_res.
+  - apply handle_echo_res.
+  - apply handle_dummy_res.
+  - apply handle_adb_res.
+  - apply handle_tftp_res.
+  - apply handle_memcached_res.
+Qed.
+
+Lemma handle_smtp_res fuel c : h_res (handle_smtp fuel c) = mkRes 1 0 0.
+Proof. unfold handle_smtp. destruct (smtp_loop _ _ _ _); reflexivity. Qed.
+
+(* ftp: nothing the control loop does ever gives back the pump goroutine or a listener *)
+Definition ftp_inv (s : ftp_st) : Prop :=
+  1 <= f_gor s /\ 0 <= f_lis s /\ 0 <= f_dirs s /\ 0 <= f_dconns s /\
+  match f_data s with DPassive d => connected d = true -> 1 <= f_dconns s | DNone => True end.
+
+Lemma ftp_init_inv : ftp_inv ftp_init.
+Proof. unfold ftp_inv, ftp_init; cbn; repeat split; lia. Qed.
+
+Lemma open_passive_inv d s : ftp_inv s -> ftp_inv (open_passive d s) /\ f_lis (open_passive d s) = f_lis s + 1.
+Proof.
+  unfold ftp_inv, open_passive; intros (A & B & C & D & E).
+  destruct (connected d) eqn:Ec; cbn [f_gor f_lis f_dirs f_dconns f_data]; repeat split; try lia.
+Qed.
+
+Lemma close_data_inv s : ftp_inv s -> ftp_inv (close_data s) /\ f_lis (close_data s) = f_lis s.
+Proof.
+  unfold ftp_inv, close_data; intros (A & B & C & D & E).
+  destruct (f_data s) as [|[]]; cbn [f_gor f_lis f_dirs f_dconns f_data] in *; repeat split; try lia;
+    specialize (E eq_refl); lia.
+Qed.
+
+Lemma list_dir_inv s : ftp_inv s -> ftp_inv (list_dir s) /\ f_lis (list_dir s) = f_lis s.
+Proof. unfold ftp_inv, list_dir; intros (A & B & C & D & E); cbn; repeat split; auto; lia. Qed.
+
+Lemma set_user_inv s u r : ftp_inv s -> ftp_inv (set_user s u r) /\ f_lis (set_user s u r) = f_lis s.
+Proof. unfold ftp_inv, set_user; intros (A & B & C & D & E); cbn; repeat split; auto. Qed.
+
+Definition fstep_st (st : fstep) (s0 : ftp_st) : ftp_st :=
+  match st with FGo s | FClosed s | FBlock s | FPanic s => s | FOut => s0 end.
+
+Lemma ftp_cmd_inv v6 dial s line :
+  ftp_inv s ->
+  let st := fstep_st (fst (ftp_cmd v6 dial s line)) s in ftp_inv st /\ f_lis s <= f_lis st.
+Proof.
+  intros Hi; unfold ftp_cmd.
+  destruct (parse_line line) as [c p].
+  pose proof (open_passive_inv dial s Hi) as [O1 O2].
+  pose proof (open_passive_inv DialNone s Hi) as [O3 O4].
+  pose proof (close_data_inv s Hi) as [C1 C2].
+  pose proof (list_dir_inv s Hi) as [L1 L2].
+  pose proof (close_data_inv _ L1) as [C3 C4].
+  destruct (classify c); cbn [fst fstep_st];
+    repeat match goal with
+           | |- context [if ?x then _ else _] => destruct x
+           end; cbn [fst fstep_st];
+    try (split; [assumption|lia]);
+    try (split; [apply set_user_inv; assumption|cbn; lia]).
+  destruct (f_data (list_dir s)) as [|[]]; cbn [fst fstep_st]; split; try assumption; lia.
+Qed.
+
+Lemma ftp_loop_inv fuel v6 dial s b :
+  ftp_inv s ->
+  let s' := snd (fst (ftp_loop fuel v6 dial s b)) in ftp_inv s' /\ f_lis s <= f_lis s'.
+Proof.
+  revert s b; induction fuel as [|f IH]; intros s b Hi; cbn [ftp_loop]; [cbn; split; [assumption|lia]|].
+  destruct (read_bytes (S f) 10 [] b) as [line e b1|]; [|cbn; split; [assumption|lia]].
+  pose proof (close_data_inv s Hi) as [C1 C2].
+  destruct e; cbn [fst snd]; try (split; [assumption|lia]).
+  pose proof (ftp_cmd_inv v6 dial s line Hi) as Hc. cbv zeta in Hc.
+  destruct (ftp_cmd v6 dial s line) as [st k]; cbn [fst] in Hc.
+  destruct st; cbn [fstep_st] in Hc; cbn [fst snd]; try exact Hc.
+  destruct Hc as [H1 H2]. specialize (IH s0 (nwrites (N.to_nat k) b1) H1). cbv zeta in IH.
+  destruct IH as [I1 I2]. split; [exact I1|lia].
+Qed.
+
+Lemma handle_ftp_keeps v6 dial fuel c :
+  let r := h_res (handle_ftp v6 dial fuel c) in 1 <= r_gor r /\ 0 <= r_lis r /\ r_lis r <= r_fds r.
+Proof.
+  unfold handle_ftp, handle_ftp_st.
+  pose proof (ftp_loop_inv fuel v6 dial ftp_init (bwrite (new_reader c) 0) ftp_init_inv) as H. cbv zeta in H.
+  destruct (ftp_loop fuel v6 dial ftp_init (bwrite (new_reader c) 0)) as [[o s] b]; cbn [fst snd] in H.
+  destruct H as [(A & B & C & D & E) _]. cbn [h_res ftp_res r_gor r_lis r_fds].
+  destruct o; repeat split; lia.
+Qed.
+
+(* ------------------------------------------------------------------ *)
+(* histories of sequential connections *)
+
+Lemma res_add_0_l r : res_add res0 r = r.
+Proof. destruct r; reflexivity. Qed.
+
+Lemma history_app s a b : history s (a ++ b) = res_add (history s a) (history s b).
+Proof.
+  induction a as [|c a IH]; cbn [app history].
+  - rewrite res_add_0_l; reflexivity.
+  - rewrite IH. unfold res_add; cbn [r_gor r_lis r_fds]. f_equal; lia.
+Qed.
+
+Lemma history_repeat s c n :
+  history s (repeat c n) = res_scale (Z.of_nat n) (h_res (handle s (fuel_for c) c)).
+Proof.
+  induction n as [|n IH]; cbn [repeat history].
+  - unfold res_scale, res0; f_equal.
+  - rewrite IH. unfold res_add, res_scale; cbn [r_gor r_lis r_fds]. f_equal; lia.
+Qed.
+
+Lemma history_clean s cs : clean_svc (sc_svc s) = true -> history s cs = res0.
+Proof.
+  intros Hc; induction cs as [|c cs IH]; cbn [history]; [reflexivity|].
+  rewrite IH, (handle_clean_res s _ c Hc); reflexivity.
+Qed.
+
+Lemma history_smtp u v6 d cs : history (mkScn Smtp u v6 d) cs = mkRes (Z.of_nat (length cs)) 0 0.
+Proof.
+  induction cs as [|c cs IH]; cbn [history length]; [reflexivity|].
+  rewrite IH. unfold handle; cbn [sc_svc]. rewrite handle_smtp_res.
+  unfold res_add; cbn [r_gor r_lis r_fds]. f_equal; lia.
+Qed.
+
+Lemma history_ftp u v6 d cs :
+  let r := history (mkScn Ftp u v6 d) cs in Z.of_nat (length cs) <= r_gor r /\ 0 <= r_lis r /\ r_lis r <= r_fds r.
+Proof.
+  induction cs as [|c cs IH]; cbn [history length]; [cbn; lia|].
+  cbv zeta in IH. unfold handle; cbn [sc_svc sc_v6 sc_dial].
+  pose proof (handle_ftp_keeps v6 d (fuel_for c) c) as H. cbv zeta in H.
+  unfold res_add; cbn [r_gor r_lis r_fds]. lia.
+Qed.
+
+(* ------------------------------------------------------------------ *)
+(* dispatch level *)
+
+Lemma fuel_for_ok c : (weight c + 3 <= fuel_for c)%nat /\ (weight c < fuel_for c)%nat.
+Proof. unfold fuel_for; lia. Qed.
+
+Definition copy_svc (s : svc) : bool := match s with Ntp | Echo => true | _ => false end.
+Definition bufio_svc (s : svc) : bool := match s with Dummy | Tftp | Memcached => true | _ => false end.
+
+Lemma handle_copy_spins s fuel c :
+  copy_svc (sc_svc s) = true -> c_term c = TZero ->
+  h_out (handle s fuel c) = OutOfFuel /\
+  m_reads (c_m (h_conn (handle s fuel c))) = (m_reads (c_m c) + N.of_nat fuel)%N.
+Proof.
+  destruct s as [sv u v d]; unfold handle; cbn [sc_svc]; destruct sv; cbn [copy_svc]; try congruence; intros _ Ht.
+  - unfold handle_ntp. pose proof (io_copy_zero_spins fuel false c Ht). pose proof (io_copy_zero_reads fuel false c Ht).
+    destruct (io_copy fuel false c); cbn [fst snd h_out h_conn] in *; auto.
+  - unfold handle_echo. pose proof (io_copy_zero_spins fuel true c Ht). pose proof (io_copy_zero_reads fuel true c Ht).
+    destruct (io_copy fuel true c); cbn [fst snd h_out h_conn] in *; auto.
+Qed.
+
+Lemma handle_copy_returns s c :
+  copy_svc (sc_svc s) = true -> c_term c <> TZero ->
+  h_out (handle s (fuel_for c) c) = Returned /\
+  (m_timeouts (c_m (h_conn (handle s (fuel_for c) c))) <= m_timeouts (c_m c) + 1)%N.
+Proof.
+  destruct (fuel_for_ok c) as [_ Hf].
+  destruct s as [sv u v d]; unfold handle; cbn [sc_svc]; destruct sv; cbn [copy_svc]; try congruence; intros _ Ht.
+  - unfold handle_ntp. pose proof (io_copy_returns _ false c Ht Hf). pose proof (io_copy_one_deadline (fuel_for c) false c).
+    destruct (io_copy (fuel_for c) false c); cbn [fst snd h_out h_conn] in *; auto.
+  - unfold handle_echo. pose proof (io_copy_returns _ true c Ht Hf). pose proof (io_copy_one_deadline (fuel_for c) true c).
+    destruct (io_copy (fuel_for c) true c); cbn [fst snd h_out h_conn] in *; auto.
+Qed.
+
+Lemma handle_bufio_returns s c :
+  bufio_svc (sc_svc s) = true -> h_out (handle s (fuel_for c) c) = Returned.
+Proof.
+  destruct (fuel_for_ok c) as [Hf _].
+  destruct s as [sv u v d]; unfold handle; cbn [sc_svc sc_udp]; destruct sv; cbn [bufio_svc]; try congruence; intros _.
+  - apply handle_dummy_returns; exact Hf.
+  - apply handle_tftp_returns; exact Hf.
+  - apply handle_memcached_returns; exact Hf.
+Qed.
+
+Definition finding_class (s : scn) (c : conn) : Prop :=
+  (c_term c = TZero /\ (sc_svc s = Ntp \/ sc_svc s = Echo \/ sc_svc s = Adb)) \/
+  sc_svc s = Ftp \/ sc_svc s = Smtp.
+
+Lemma outside_findings s c :
+  ~ finding_class s c ->
+  finished (h_out (handle s (fuel_for c) c)) = true /\ h_res (handle s (fuel_for c) c) = res0.
+Proof.
+  intros Hn. unfold finding_class in Hn.
+  assert (clean_svc (sc_svc s) = true) as Hc by (destruct (sc_svc s); cbn; auto; exfalso; apply Hn; auto).
+  split; [|apply handle_clean_res; exact Hc].
+  destruct (sc_svc s) eqn:Es; cbn in Hc; try congruence.
+  - assert (c_term c <> TZero) as Ht by (intros Ht; apply Hn; auto).
+    destruct (handle_copy_returns s c) as [-> _]; [rewrite Es; reflexivity|exact Ht|reflexivity].
+  - assert (c_term c <> TZero) as Ht by (intros Ht; apply Hn; auto).
+    destruct (handle_copy_returns s c) as [-> _]; [rewrite Es; reflexivity|exact Ht|reflexivity].
+  - rewrite (handle_bufio_returns s c); [reflexivity|rewrite Es; reflexivity].
+  - assert (c_term c <> TZero) as Ht by (intros Ht; apply Hn; auto).
+    unfold handle; rewrite Es. apply handle_adb_ends; [exact Ht|apply fuel_for_ok].
+  - rewrite (handle_bufio_returns s c); [reflexivity|rewrite Es; reflexivity].
+  - rewrite (handle_bufio_returns s c); [reflexivity|rewrite Es; reflexivity].
+Qed.
+
+Lemma handle_ftp_scn_ends s c :
+  sc_svc s = Ftp -> h_out (handle s (fuel_for c) c) <> OutOfFuel.
+Proof. intros Es; unfold handle; rewrite Es. apply handle_ftp_ends, fuel_for_ok. Qed.
+
+Lemma handle_smtp_scn_ends s c :
+  sc_svc s = Smtp ->
+  (h_out (handle s (fuel_for c) c) = Returned \/ h_out (handle s (fuel_for c) c) = Unmodelled) /\
+  h_res (handle s (fuel_for c) c) = mkRes 1 0 0.
+Proof.
+  intros Es; unfold handle; rewrite Es. split; [apply handle_smtp_ends, fuel_for_ok|apply handle_smtp_res].
+Qed.
